@@ -115,16 +115,16 @@ Proof.
 Qed.
 
 (* the case the driver would write if the implementation behaved exactly like the model *)
-Definition model_case (lc : bool) prov cd tok ui tab errp later : case :=
+Definition model_case (lc : bool) tag prov cd tok ui tab errp later : case :=
   let oracle := oracle_tab tab in
   let '(o, tc, uc) := redeem_tr lc prov oracle cd tok ui in
-  Case prov cd tok ui tab (obs_of o) tc uc
+  Case tag prov cd tok ui tab (obs_of o) tc uc
        (Some (errp, later, cb_obs_of (oauth_callback lc prov oracle errp cd tok ui later))).
 
-Theorem judge_accepts_model lc prov cd tok ui tab errp later :
+Theorem judge_accepts_model lc tag prov cd tok ui tab errp later :
   later_ok later = true -> oracle_miss tab tok = false ->
-  judge_lc lc (model_case lc prov cd tok ui tab errp later) = 0 \/
-  (judge_lc lc (model_case lc prov cd tok ui tab errp later) = 101 /\ lc = false /\ k1_signature prov cd tok = true).
+  judge_lc lc (model_case lc tag prov cd tok ui tab errp later) = 0 \/
+  (judge_lc lc (model_case lc tag prov cd tok ui tab errp later) = 101 /\ lc = false /\ k1_signature prov cd tok = true).
 Proof.
   intros Hl Hm. unfold model_case, judge_lc. cbv zeta.
   pose proof (holds_sound_model lc prov (oracle_tab tab) errp cd tok ui later Hl) as Hs.
@@ -141,10 +141,10 @@ Proof.
     apply holds_nocrash_model_today in Hc' as [-> K]. rewrite K. simpl. auto.
 Qed.
 
-Corollary judge_accepts_fixed_model prov cd tok ui tab errp later :
+Corollary judge_accepts_fixed_model tag prov cd tok ui tab errp later :
   later_ok later = true -> oracle_miss tab tok = false ->
-  judge_lc true (model_case true prov cd tok ui tab errp later) = 0.
+  judge_lc true (model_case true tag prov cd tok ui tab errp later) = 0.
 Proof.
-  intros Hl Hm. destruct (judge_accepts_model true prov cd tok ui tab errp later Hl Hm) as [H|(_ & H & _)];
+  intros Hl Hm. destruct (judge_accepts_model true tag prov cd tok ui tab errp later Hl Hm) as [H|(_ & H & _)];
     [exact H | discriminate].
 Qed.
